@@ -67,31 +67,33 @@ def run(tier, corrupt=False):
                 kept = [r for r in recs if r["prog"] in acc and r["status"] != "bound"]
                 nbound = sum(1 for r in recs if r["status"] == "bound")
                 cases = [{"kind": "de", "prog": r["prog"], "data": r["data"], "ch0": r["ch0"], "dfuel": -1, "windows": k_ % 3 == 0} for k_, r in enumerate(kept)]
-                imp, results = run_drivers_parallel(src, wt, accepted, types, cases)
-                if imp:
-                    v.violation("generated package not importable", imp.strip().splitlines()[-1], {"trace": imp})
-                    results = []
                 n = 0
-                for r, o in zip(kept, results):
-                    n += 1
-                    if "harness_error" in o:
-                        raise MachineryError(o["harness_error"])
-                    if corrupt and n == 77:
-                        o = dict(o, pos=(o["pos"] or 0) + 1)
-                    key = f"{r['prog']} data={r['data']} chunked0={r['ch0']}"
-                    case = {"prog": r["prog"], "data": r["data"], "ch0": r["ch0"], "model": {"exc": r["exc"], "obj": r["obj"], "pos": r["pos"]},
-                            "observed": {"exc": o["exc"], "obj": o["obj"], "pos": o["pos"], "msg": o.get("exc_msg")}}
-                    if o.get("window_differs"):
-                        v.violation(key, "\"nothing outside the supplied bytes is read\": " + o["window_differs"], case)
-                    if o["exc"] != r["exc"]:
-                        v.violation(key, f"deserialize raised {o['exc'] or 'nothing'} ({o.get('exc_msg', '')}); the reading rules give "
-                                         f"{r['exc'] or 'an object'}", case)
-                        continue
-                    if r["exc"] == "":
-                        if strip_kinds(o["obj"]) != r["obj"]:
-                            v.violation(key, f"object differs from the one the reading rules prescribe: got {short(strip_kinds(o['obj']))}, expected {short(r['obj'])}", case)
-                        elif o["pos"] != r["pos"]:
-                            v.violation(key, f"reader position {o['pos']} after deserialize, the reading rules consume {r['pos']}", case)
+                BATCH = 60000
+                for b0 in range(0, len(cases), BATCH):
+                    imp, results = run_drivers_parallel(src, wt, accepted, types, cases[b0:b0 + BATCH])
+                    if imp:
+                        v.violation("generated package not importable", imp.strip().splitlines()[-1], {"trace": imp})
+                        break
+                    for r, o in zip(kept[b0:b0 + BATCH], results):
+                        n += 1
+                        if "harness_error" in o:
+                            raise MachineryError(o["harness_error"])
+                        if corrupt and n == 77:
+                            o = dict(o, pos=(o["pos"] or 0) + 1)
+                        key = f"{r['prog']} data={r['data']} chunked0={r['ch0']}"
+                        case = {"prog": r["prog"], "data": r["data"], "ch0": r["ch0"], "model": {"exc": r["exc"], "obj": r["obj"], "pos": r["pos"]},
+                                "observed": {"exc": o["exc"], "obj": o["obj"], "pos": o["pos"], "msg": o.get("exc_msg")}}
+                        if o.get("window_differs"):
+                            v.violation(key, "\"nothing outside the supplied bytes is read\": " + o["window_differs"], case)
+                        if o["exc"] != r["exc"]:
+                            v.violation(key, f"deserialize raised {o['exc'] or 'nothing'} ({o.get('exc_msg', '')}); the reading rules give "
+                                             f"{r['exc'] or 'an object'}", case)
+                            continue
+                        if r["exc"] == "":
+                            if strip_kinds(o["obj"]) != r["obj"]:
+                                v.violation(key, f"object differs from the one the reading rules prescribe: got {short(strip_kinds(o['obj']))}, expected {short(r['obj'])}", case)
+                            elif o["pos"] != r["pos"]:
+                                v.violation(key, f"reader position {o['pos']} after deserialize, the reading rules consume {r['pos']}", case)
                 # ---- pattern V: uniformly random bytes and mutations of the serializations of random larger objects, judged by TLC (givenbytes)
                 import random
                 from ..common import seed
